@@ -95,9 +95,9 @@ func TestCheck(t *testing.T) {
 		start uint32
 		depth int
 	}
-	cfgs := []cfg{{512, 2, 3}, {512, 3, 3}, {512, 256, 2}, {512, 257, 3}, {512, 513, 2}, {4096, 3, 2}, {4096, 257, 2}}
+	cfgs := []cfg{{512, 2, 3}, {512, 3, 3}, {512, 256, 2}, {512, 257, 3}, {512, 300, 3}, {512, 513, 2}, {4096, 3, 2}, {4096, 257, 2}}
 	if run.Thorough() {
-		cfgs = []cfg{{512, 2, 4}, {512, 3, 4}, {512, 255, 3}, {512, 256, 3}, {512, 257, 4}, {512, 513, 3}, {512, 512, 3},
+		cfgs = []cfg{{512, 2, 4}, {512, 3, 4}, {512, 255, 3}, {512, 256, 3}, {512, 257, 4}, {512, 300, 4}, {512, 513, 3}, {512, 512, 3},
 			{1024, 3, 3}, {2048, 257, 2}, {4096, 3, 3}, {4096, 257, 3}, {8192, 3, 2}, {16384, 3, 2}, {32768, 3, 2}, {65536, 3, 3}, {65536, 257, 2}}
 	}
 	var cases []prog.Case
